@@ -145,10 +145,11 @@ def check_case(case):
             a, b = g[0] / ch[nfs[0]], g[i] / ch[nfs[i]]
             s = max(run.maxabs(a), run.maxabs(b))
             d = run.maxabs(a - b)
-            # the factor nf sits inside the integrand: adaptive quadrature (epsabs 1e-13) subdivides differently,
-            # measured relative difference up to 1e-10 -> quadrature-class tolerance
-            v.metric("gluon-charge-sum", d / (1e-8 * s + 1e-300))
-            if not d <= 1e-8 * s + 1e-300:
+            # the factor nf sits inside the integrand: adaptive quadrature (requested relative accuracy 1.5e-8 per piece) subdivides
+            # differently; typical relative difference 1e-10, 4.2e-8 seen once in 125000 cases (thorough tier) -> 2e-7; a wrong nf
+            # changes the ratio by 10 % and more
+            v.metric("gluon-charge-sum", d / (2e-7 * s + 1e-300))
+            if not d <= 2e-7 * s + 1e-300:
                 v.fail("C06:gluon-charge-sum", f"NLO gluon rows at Q2={case['q2'][0]!r} (nf {nfs[0]}) and {case['q2'][i]!r} (nf {nfs[i]}) are not in the ratio of sum e_q^2")
     else:
         sv = bool(case.get("sv"))
